@@ -1,11 +1,15 @@
 /-
 C03 — No client behaviour can crash or halt the broker's routing core.
-The model makes every Rust panic site an explicit `Fail.panic`; the theorems below state which
-events can never reach one. (The global statement over all event sequences needs the full
-invariant suite and is being built up; Rust panic-freedom itself is decided by the
-correspondence: every op of `vh router` runs under catch_unwind.)
+The model makes every Rust panic site an explicit `Fail.panic`. The global theorems quantify over
+every reachable state (`Reachable cfg s`: the state after any error-free list of ops — connect /
+push / event / consume / drain for arbitrary ids, packets and oracles — from `init cfg`), every
+next op and every oracle. Proved from the invariants of Proofs/Lemmas/Router/Rp1_*.lean
+(slab / connection-map consistency, valid filter indexes everywhere, live ids in waiter lists,
+`Paused(Busy)` saved trackers, non-empty shared groups, no pending notification between steps).
+Rust panic-freedom itself is additionally decided by the correspondence: every op of `vh router`
+runs under catch_unwind.
 -/
-import Proofs.Lemmas.Router.Local
+import Proofs.Lemmas.Router.Rp1_DConnect
 namespace C03
 open Router
 
@@ -53,5 +57,100 @@ theorem device_data_of_missing_id_is_noop (s : RState) (id : Nat) (h : getConn s
 /-- metrics / alerts ticks are inert in the model -/
 theorem ticks_never_panic (s : RState) (id : Nat) :
     events s id .sendMeters = .ok s ∧ events s id .sendAlerts = .ok s := ⟨rfl, rfl⟩
+
+/-- `router_never_panics`, as far as proved: in every reachable state, whatever op comes next (any
+    event for any id — live, stale, never used —, any batch of decoded packets, any CONNECT,
+    consume, link-side push / drain) and whatever the oracle, the step does not panic — with the
+    sole possible exception of the two dev-profile assertions
+    `debug_assert!(check_tracker_duplicates(..).is_none())`: the one in `handle_new_connection` can
+    only fire on a CONNECT with `clean_session = false`, the one in `prepare_filter` only on a
+    DeviceData event whose batch contains a SUBSCRIBE. Every `unwrap`, slab / vector index,
+    `assert_eq!` in `Scheduler::pause`, `try_ready` assertion, `% 0` / empty-range site is
+    excluded. Missing for the full statement `router_never_panics` (no hypothesis on `msg`): the
+    request-conservation invariant (each (connection, filter) has exactly one `DataRequest`, in
+    exactly one of tracker / waiters / notifications / saved session), which is what the two
+    assertions check. -/
+theorem router_never_panics_partial {cfg : Config} {s : RState} (hr : Reachable cfg s) (op : Op)
+    (o : List Choice) (msg : String) (h : step { s with oracle := o } op = .error (.panic msg)) :
+    ((∃ spec, op = .connect spec ∧ spec.clean = false) ∧
+        msg = "debug_assert check_tracker_duplicates (new connection)") ∨
+    ((∃ id, op = .event id .deviceData ∧ batchHasSubscribe s id) ∧
+        msg = "debug_assert check_tracker_duplicates (prepare_filter)") := by
+  have hg := step_good (op := op) ((Inv2.reachable hr).oracle o)
+  have ha := hg.not_panic msg h
+  cases op with
+  | connect spec => exact .inl ⟨⟨spec, rfl, ha.1⟩, ha.2⟩
+  | event id ev =>
+    cases ev with
+    | deviceData => exact .inr ⟨⟨id, rfl, ha.1⟩, ha.2⟩
+    | _ => exact ha.elim
+  | _ => exact ha.elim
+
+/-- `consume()` never panics in a reachable state: the polled id is live, every request's filter
+    index is valid (`forward_device_data`, `park`), shared groups are non-empty
+    (`update_next_client`), and the polled id is still at the back of the ready queue when
+    `Scheduler::pause` asserts it -/
+theorem consume_never_panics {cfg : Config} {s : RState} (hr : Reachable cfg s) (o : List Choice) (msg : String) :
+    step { s with oracle := o } .consume ≠ .error (.panic msg) := fun h => by
+  rcases router_never_panics_partial hr .consume o msg h with ⟨⟨_, e, _⟩, _⟩ | ⟨⟨_, e, _⟩, _⟩ <;> cases e
+
+/-- no event other than DeviceData ever panics in a reachable state, for any id: Ready, Disconnect,
+    Shadow, PublishWill (append + wake-up of parked subscribers), metrics / alerts ticks -/
+theorem control_events_never_panic {cfg : Config} {s : RState} (hr : Reachable cfg s) (o : List Choice)
+    (id : Nat) (ev : Event) (hev : ev ≠ .deviceData) (msg : String) :
+    step { s with oracle := o } (.event id ev) ≠ .error (.panic msg) := fun h => by
+  rcases router_never_panics_partial hr _ o msg h with ⟨⟨_, e, _⟩, _⟩ | ⟨⟨_, e, _⟩, _⟩
+  · cases e
+  · simp only [Op.event.injEq] at e; exact hev e.2
+
+/-- a DeviceData event never panics, for any id and ANY batch of decoded packets that contains no
+    SUBSCRIBE: PUBLISH (any QoS, topic alias, invalid UTF-8), PUBACK / PUBREC / PUBREL / PUBCOMP
+    (solicited or not), UNSUBSCRIBE, PINGREQ, DISCONNECT, in any order and number -/
+theorem device_data_without_subscribe_never_panics {cfg : Config} {s : RState} (hr : Reachable cfg s)
+    (o : List Choice) (id : Nat)
+    (hns : ∀ c, getConn s id = some c → ∀ p ∈ (getLink s c.link).ibuf, ∀ a b f, p ≠ Packet.subscribe a b f)
+    (msg : String) :
+    step { s with oracle := o } (.event id .deviceData) ≠ .error (.panic msg) := fun h => by
+  rcases router_never_panics_partial hr _ o msg h with ⟨⟨_, e, _⟩, _⟩ | ⟨⟨_, e, c, hc, p, hp, a, b, f, hs⟩, _⟩
+  · cases e
+  · simp only [Op.event.injEq] at e
+    obtain ⟨rfl, _⟩ := e
+    exact hns c hc p hp a b f hs
+
+/-- with a SUBSCRIBE in the batch, the only site a DeviceData event can still panic at is
+    `prepare_filter`'s duplicate-tracker debug assertion -/
+theorem device_data_panics_only_in_duplicate_assertion {cfg : Config} {s : RState} (hr : Reachable cfg s)
+    (o : List Choice) (id : Nat) (msg : String)
+    (h : step { s with oracle := o } (.event id .deviceData) = .error (.panic msg)) :
+    msg = "debug_assert check_tracker_duplicates (prepare_filter)" := by
+  rcases router_never_panics_partial hr _ o msg h with ⟨⟨_, e, _⟩, _⟩ | ⟨_, e⟩
+  · cases e
+  · exact e
+
+/-- a CONNECT with `clean_session = true` never panics in a reachable state (valid or invalid
+    client id, takeover of a live connection, `max_connections` reached or not); with
+    `clean_session = false` the only site left is the duplicate-tracker debug assertion on the
+    restored tracker -/
+theorem connect_never_panics_partial {cfg : Config} {s : RState} (hr : Reachable cfg s) (o : List Choice)
+    (spec : ConnectSpec) (msg : String)
+    (h : step { s with oracle := o } (.connect spec) = .error (.panic msg)) :
+    spec.clean = false ∧ msg = "debug_assert check_tracker_duplicates (new connection)" := by
+  rcases router_never_panics_partial hr _ o msg h with ⟨⟨_, e, hc⟩, hm⟩ | ⟨⟨_, e, _⟩, _⟩
+  · simp only [Op.connect.injEq] at e; subst e; exact ⟨hc, hm⟩
+  · cases e
+
+/-- link-side pushes and drains never panic -/
+theorem link_ops_never_panic {cfg : Config} {s : RState} (hr : Reachable cfg s) (o : List Choice) (op : Op)
+    (hop : (∃ l p, op = .push l p) ∨ ∃ l, op = .drain l) (msg : String) :
+    step { s with oracle := o } op ≠ .error (.panic msg) := fun h => by
+  rcases router_never_panics_partial hr op o msg h with ⟨⟨_, e, _⟩, _⟩ | ⟨⟨_, e, _⟩, _⟩ <;>
+    (subst e; rcases hop with ⟨_, _, e'⟩ | ⟨_, e'⟩ <;> cases e')
+
+/-- non-vacuity: reachable states exist in which these ops do something: two registered
+    connections, then a stale Disconnect for a removed id and a Ready for a never-used id -/
+example : ∃ s, Reachable ⟨2, 1024, 2, 10, .roundRobin⟩ s ∧ (getConn s 0).isSome = true ∧ (getConn s 1).isSome = false :=
+  ⟨_, ⟨[(.connect { link := 0, clientId := "a", clean := true, dynamicFilters := false, aliasMax := 0, will := none }, []),
+        (.connect { link := 1, clientId := "b", clean := true, dynamicFilters := false, aliasMax := 0, will := none }, []),
+        (.event 1 .disconnect, []), (.event 1 .disconnect, []), (.event 7 .ready, []), (.consume, [])], rfl⟩, rfl, rfl⟩
 
 end C03
